@@ -22,6 +22,16 @@ func init() {
 	}})
 }
 
+// skipsRotatedLoop: the path from the entry leaves the function because a bottom-tested level loop has nothing to do.
+func skipsRotatedLoop(an *ir.Analysis, p *ir.Path) bool {
+	for _, h := range an.Headers {
+		if l := countedLoop(an, h); l != nil && zeroTrip(an, p, l) {
+			return true
+		}
+	}
+	return false
+}
+
 func runC18(c *core.Ctx) {
 	pkg := "internal/maplike/skiplist"
 	c.Doc("compare-normal-form", 4, "advance iff node key < key; match iff equal; keys only through Compare")
@@ -218,7 +228,7 @@ func runC18(c *core.Ctx) {
 				if !(len(st) == 1 && st[0].A[0].Op == "faddr" && st[0].A[0].Aux == fVal && paramOf(st[0].A[1], put, 2) && p.Exit == ir.ExitReturn) {
 					okR, whyR = false, "Put on an existing key must only overwrite the node's value"
 				}
-			} else if p.To == nil {
+			} else if p.To == nil && !skipsRotatedLoop(an, p) {
 				okR, whyR = false, "Put of a new key returns without splicing"
 			}
 		}
@@ -257,7 +267,7 @@ func runC18(c *core.Ctx) {
 				// every level of the new node, ascending from 0: trip count len(node.fingers), or the rank the node
 				// constructor returns when that is the length of the finger slice it builds
 				// (the order in which the levels are spliced is not observable: ascending or descending)
-				if l == nil || !(l.Step == 1 || l.Descending) || l.Trip == nil || l.Rotated() || !(ir.Same(l.Trip, nodeLen) || ir.Same(l.Trip, rank) && rankIsHeight) {
+				if l == nil || !(l.Step == 1 || l.Descending) || l.Trip == nil || !(ir.Same(l.Trip, nodeLen) || ir.Same(l.Trip, rank) && rankIsHeight) {
 					okL, whyL = false, "the splice loop does not run over levels 0 .. rank-1 of the new node"
 					if l != nil {
 						whyL += fmt.Sprintf(" (trip %s, step %d, op %s; node height %s)", short(l.Trip), l.Step, l.Op, short(rank))
@@ -268,15 +278,11 @@ func runC18(c *core.Ctx) {
 				if l.RangeOver != nil || l.Op == "range" {
 					lv = l.Index(an)
 				}
-				if !l.Rotated() {
-					if q := earlyExit(an, h); q != nil {
-						okS, whyS = false, "the splice loop is left from inside its body: the upper levels of the new node are never linked"
-					}
+				iters, _, early := loopSegments(an, h, l)
+				if early != nil {
+					okS, whyS = false, "the splice loop is left from inside its body: the upper levels of the new node are never linked"
 				}
-				for _, p := range an.Segs[h] {
-					if p.To != h {
-						continue
-					}
+				for _, p := range iters {
 					st := nonLocalStores(p)
 					// store 1: node.fingers[l] := path[l].fingers[l] ; store 2: path[l].fingers[l] := node
 					if len(st) != 2 {
@@ -322,13 +328,13 @@ func runC18(c *core.Ctx) {
 				if p.Exit != ir.ExitReturn || !strings.HasPrefix(p.Results[0].Aux, "zero") || len(nonLocalStores(p)) != 0 {
 					okR, whyR = false, "for an absent key Remove must return the zero value and change nothing"
 				}
-			} else if p.To == nil {
+			} else if p.To == nil && !skipsRotatedLoop(an, p) {
 				okR, whyR = false, "Remove of a present key returns without unlinking"
 			}
 		}
 		for _, h := range an.Headers {
 			l := countedLoop(an, h)
-			if l == nil || l.Step != 1 || l.Op != "<" {
+			if l == nil || l.Step != 1 || !(l.Op == "<" || l.Rotated()) {
 				okL, whyL = false, "the unlink loop is not an ascending counted loop"
 				continue
 			}
@@ -354,10 +360,11 @@ func runC18(c *core.Ctx) {
 				okL, whyL = false, "the unlink loop's bound is "+short(b)+": it must cover every level of the removed node (len(head.fingers), list.levels or len(v.fingers)); a shorter bound leaves the node linked on upper levels"
 			}
 			lv := an.Start[h].Reg(l.Phi)
-			if q := earlyExit(an, h); q != nil && !l.Rotated() {
+			iters, exits, early := loopSegments(an, h, l)
+			if early != nil {
 				okL, whyL = false, "the unlink loop is left from inside its body: the node stays linked on the levels above"
 			}
-			for _, p := range an.Segs[h] {
+			for _, p := range append(append([]*ir.Path{}, iters...), exits...) {
 				st := nonLocalStores(p)
 				if p.To != h {
 					// exit: returns v.val
